@@ -104,6 +104,27 @@ def gen_exact_zero_case(rng, oid):
     return m, par
 
 
+def gen_exact_tie_case(rng, oid):
+    """frequencies k * 2**-e, main peaks on grid samples, normal distribution for fn: the first pass removes one outlier and moves mean fn by EXACTLY one
+    hundredth of its distance to the mean-curve peak (2 of 200 samples, or 4 of 400) -- the relative change is the double 0.01, which is not below 0.01, so the
+    published algorithm makes another pass (seed C06-V of round 9 stopped there)"""
+    k = int(rng.integers(1, 3)); e = int(rng.integers(10, 13))
+    nf = 512 * k + int(rng.integers(0, 64))
+    freq = np.arange(1, nf + 1) * 2.0 ** -e
+    p0 = int(rng.integers(20, 90)); a = p0 + 200 * k
+    offs = [-4 * k, -3 * k, -1 * k, 0, 8 * k]     # mean a; without the outlier a - 2k
+    offs = [offs[j] for j in rng.permutation(5)]
+    rows = np.full((5, nf), 1.0)
+    for r, o in zip(rows, offs):
+        r[p0] = 1.9                                 # a bump common to all windows: the peak of the mean curve
+        r[a + o] = 2.0
+    m = Mirror.trad(oid * 5, freq, rows)
+    m.exact_zero = True
+    m.exact_tie = True
+    par = dict(n=1.0, maxit=int(rng.choice([2, 50])), dfn="normal", dmc=str(rng.choice(hvgen.DISTS)), range=(None, None))
+    return m, par
+
+
 TRACE_KEYS = ["mean_fn_before", "std_fn_before", "mc_peak_frq_before", None, None, "mean_fn_after", "std_fn_after", "mc_peak_frq_after"]
 
 
@@ -191,6 +212,9 @@ def run(ctx):
         kind = "T" if i % 3 != 2 else "A"
         if i % 40 == 7:
             m, par = gen_exact_zero_case(rng, i + 1)
+        elif i % 40 == 27:
+            m, par = gen_exact_tie_case(rng, i + 1)
+            ctx.count("exact_tie_with_the_0.01_limit")
         elif i % 20 in (11, 17) and i < n:
             m, par = gen_two_resonance_case(rng, i + 1) if i % 20 == 11 else gen_sub_azimuth_case(rng, i + 1)
             if not apply_pre_history(m, m.pre_ops):
@@ -208,7 +232,7 @@ def run(ctx):
         # a third of the generic cases: the object has a HISTORY (an earlier rejection with another range, a peak update, an azimuth analysed on its own);
         # half of those pass find_peaks_kwargs={} to the judged call (the entry peak search may then be skipped per azimuth, by that azimuth's own stored range)
         m.pre_ops = []
-        if i < n and i % 40 != 7 and rng.random() < (0.6 if m.kind == "A" else 0.34):
+        if i < n and i % 40 not in (7, 27) and rng.random() < (0.6 if m.kind == "A" else 0.34):
             m.pre_ops = gen_pre_history(rng, m)
             if not apply_pre_history(m, m.pre_ops):
                 ctx.near_tie_skipped += 1
